@@ -329,7 +329,7 @@ MUTATORS = ("mktrack", "update", "set", "rmtrack", "mkroot", "mkroot_after", "mk
             "setparent", "rmcrate", "addtrack", "addtrackid", "rmtrackfrom", "cleartracks", "addforeign")
 
 
-def judge(results, part, want=("inv", "fk", "spec", "live", "failed", "blobs", "pragma")):
+def judge(results, part, want=("inv", "fk", "spec", "live", "failed", "blobs", "pragma", "stale")):
     """-> divergences (model != implementation), violations (implementation contradicts an oracle), stats"""
     divergences, violations = [], []
     st = {"evaluations": 0, "states": set(), "outcomes": {}, "ops": {}, "inv_evaluated": 0, "fk_evaluated": 0,
@@ -347,9 +347,24 @@ def judge(results, part, want=("inv", "fk", "spec", "live", "failed", "blobs", "
         last_call = None
         found = False
         compare = True
+        tvar, dead = {}, set()
         for i, l in enumerate(lines):
             if l == NOCOMPARE:
                 compare = False
+            t_ = l.split()
+            if t_ and i < len(impl):
+                if ("stale" in want and not found and t_[0] in ("update", "set", "rmtrack", "addtrack", "rmtrackfrom") and
+                        len(t_) > 2 - (t_[0] == "rmtrack") and impl[i].startswith("ok")):
+                    v_ = t_[2] if t_[0] in ("addtrack", "rmtrackfrom") else t_[1]
+                    if tvar.get(v_) in dead and t_[0] != "rmtrackfrom":
+                        # a write through the handle of a REMOVED track must be rejected (C01: never silently dropped)
+                        viol(r, i, "stale_write", "`%s` through the handle of a removed track (id %d) returned normally: the write "
+                             "was silently dropped instead of being rejected with an exception" % (" ".join(t_[:3])[:60], tvar[v_]))
+                        found = True
+                if t_[0] == "mktrack" and impl[i].startswith("ok id="):
+                    tvar[t_[1]] = int(impl[i][6:])
+                if t_[0] == "rmtrack" and impl[i].startswith("ok") and t_[1] in tvar:
+                    dead.add(tvar[t_[1]])
             if l.startswith("#"):
                 continue
             st["evaluations"] += 1
